@@ -272,10 +272,10 @@ package util
 //@ pure stepsOK(m map[int]float64) bool = len(m) >= 1 && (forall k :: k in m ==> fin(m[k]) && 0.0 <= m[k] && m[k] <= 255.0 && -1000000 <= k && k <= 1000000)
 
 //@ func Ratio
-//@   props C06
+//@   props C06 C07
 //@   requires fin(target) && fin(rangeMin) && fin(rangeMax) && rangeMin < rangeMax && rangeMin <= target && target <= rangeMax && abs(real(rangeMin)) <= 1.0e9 && abs(real(rangeMax)) <= 1.0e9
-//@   ensures[C06.unit] 0.0 <= result && result <= 1.0
-//@   ensures[C06.formula] same(result, (((target - rangeMin) / (rangeMax - rangeMin)) * 100.0) / 100.0)
+//@   ensures[C06.unit C07] 0.0 <= result && result <= 1.0
+//@   ensures[C06.formula C07] same(result, (((target - rangeMin) / (rangeMax - rangeMin)) * 100.0) / 100.0)
 //@   modifies nothing
 
 //@ ghost var lastInterp float64
@@ -293,19 +293,19 @@ package util
 //@   splitreturns
 //@   ghostret lastInterp := result
 //@   ensures same(lastInterp, result)
-//@   ensures[C06.interp.min] forall k :: isMinKey(steps, k) && input <= float64(k) ==> same(result, steps[k])
-//@   ensures[C06.interp.max] forall k :: isMaxKey(steps, k) && input >= float64(k) ==> same(result, steps[k])
-//@   ensures[C06.interp.at]  forall k :: k in steps && input == float64(k) ==> same(result, steps[k])
-//@   ensures[C06.interp.segment] forall a, b :: adjacent(steps, a, b) && float64(a) < input && input < float64(b) ==> a == segLo && b == segHi
+//@   ensures[C06.interp.min C07] forall k :: isMinKey(steps, k) && input <= float64(k) ==> same(result, steps[k])
+//@   ensures[C06.interp.max C07] forall k :: isMaxKey(steps, k) && input >= float64(k) ==> same(result, steps[k])
+//@   ensures[C06.interp.at C07]  forall k :: k in steps && input == float64(k) ==> same(result, steps[k])
+//@   ensures[C06.interp.segment C07] forall a, b :: adjacent(steps, a, b) && float64(a) < input && input < float64(b) ==> a == segLo && b == segHi
 //@   ghostdo segHit := false
 //@   atcall ghost Ratio: segHit := true
-//@   ensures[C06.interp.hit] forall a, b :: adjacent(steps, a, b) && float64(a) < input && input < float64(b) ==> segHit
-//@   ensures[C06.interp.formula] segHit ==> same(result, lerp(steps[segLo], steps[segHi], input, float64(segLo), float64(segHi)))
+//@   ensures[C06.interp.hit C07] forall a, b :: adjacent(steps, a, b) && float64(a) < input && input < float64(b) ==> segHit
+//@   ensures[C06.interp.formula C07] segHit ==> same(result, lerp(steps[segLo], steps[segHi], input, float64(segLo), float64(segHi)))
 //@   requires stepsOK(steps) && fin(input)
-//@   ensures[C06.range] fin(result) && -0.001 <= result && result <= 255.001
+//@   ensures[C06.range C07] fin(result) && -0.001 <= result && result <= 255.001
 //@   atcall ghost Ratio: segLo := currentX
 //@   atcall ghost Ratio: segHi := nextX
-//@   atcall[C06.segment] Ratio: forall a, b :: adjacent(steps, a, b) && float64(a) < input && input < float64(b) ==> a == currentX && b == nextX
+//@   atcall[C06.segment C07] Ratio: forall a, b :: adjacent(steps, a, b) && float64(a) < input && input < float64(b) ==> a == currentX && b == nextX
 //@   modifies lastInterp, segLo, segHi, segHit
 //@   loop 1 "for x := range steps"
 //@     invariant len(xValues) == count#1 && arrayOf(xValues) >= old(W) && cap(xValues) >= len(steps) && count#1 <= len(steps)
